@@ -1,6 +1,6 @@
 """C07 -- Local time resolution: identity if unique, forward in gaps, valid in overlaps."""
 import os
-from .. import common, tzconf
+from .. import common, tzconf, extproc
 
 LEVEL = 'model_checking'
 
@@ -10,10 +10,16 @@ def run(tier):
     exe = common.build_binary('tzscan', ['tzscan.cpp'], 'opt')
     nrandom = 300 if tier == 'quick' else 3000
     full = tier == 'thorough'
-    tzconf.check_wall(chk, exe, 'extended', os.path.join(common.REPO, 'src/ace_time/zonedbx'), 'later', 'zonedbx', nrandom, full=full)
-    tzconf.check_wall(chk, exe, 'basic', os.path.join(common.REPO, 'src/ace_time/zonedb'), 'either', 'zonedb', nrandom, full=full)
+    wx = tzconf.check_wall(chk, exe, 'extended', os.path.join(common.REPO, 'src/ace_time/zonedbx'), 'later', 'zonedbx', nrandom, full=full)
+    wb = tzconf.check_wall(chk, exe, 'basic', os.path.join(common.REPO, 'src/ace_time/zonedb'), 'either', 'zonedb', nrandom, full=full)
+    # algorithm level: the same recorded resolutions must *equal* what ExtProc.tla (findTransitionForDateTime + normalisation
+    # on the table of the local year) and BasicProc.tla (the three-step offset iteration over the tables selected by UTC date)
+    # compute from the compiled tables, at the start of every recorded piece and at every wall time where the model can change
+    work = common.scratch('C07-algorithm')
+    extproc.check_wall_algorithm(chk, 'zonedbx', 'extended', wx, work)
+    extproc.check_wall_algorithm(chk, 'zonedb', 'basic', wb, work)
     chk.add(exhaustive=full, rule=('every wall minute of 2000..2049 of every zone' if full else
             'every wall minute within +-200 min of every transition of every zone plus %d seeded random wall minutes per zone' % nrandom) +
-            ', each change of the result bisected to the second; run-length traces judged by TLC against TzSem.tla Allowed(w, policy)')
+            ', each change of the result bisected to the second; run-length traces judged by TLC against TzSem.tla Allowed(w, policy), and for equality against the wall-clock algorithms of ExtProc.tla / BasicProc.tla')
     chk.assume('local date-times of the years 2000..2049; their instants may fall up to a day outside [2000, 2050), where the model keeps walking')
     return chk.finish()
